@@ -465,6 +465,10 @@ def call_method(ip, st, recv, name, args, kwargs):
             return DRef(d)
         if name == "update":
             for a in args:
+                if isinstance(a, (LRef, SSeq)) and not isinstance(Q.seq_len(a), int):
+                    raise Unsupported("dict.update(<sequence of symbolic length>) on a dict with constant keys")
+                if isinstance(a, LRef):
+                    a = a.seq
                 src = a.d if isinstance(a, DRef) else dict(a if not isinstance(a, tuple) else list(a))
                 d.update(src)
             d.update(kwargs)
@@ -873,6 +877,8 @@ def b_isinstance(ip, st, x, cls):
             return ip.task.opaque_isinstance(ip, st, x, c)
         if isinstance(x, SExc):
             return issubclass(x.cls, c)
+        if isinstance(x, ModelObj) and getattr(x, "py_class", None) is not None:
+            return issubclass(x.py_class, c)  # a model of a builtin type (pyvc.fmap.SFMap models dict)
         if isinstance(x, Sym):
             raise Unsupported(f"isinstance of {type(x).__name__}")
         from .interp import FnVal
@@ -885,6 +891,23 @@ def b_isinstance(ip, st, x, cls):
     for c in classes:
         r = either(r, one(c))
     return r
+
+
+def b_dict(ip, st, *args, **kwargs):
+    """dict(x): a new dict with x's entries in x's order -- for a dict with symbolic keys (pyvc.fmap.SFMap) and for a
+    constant-key dict (DRef); anything else as before (native evaluation on concrete data, else Unsupported)."""
+    if len(args) == 1 and not kwargs:
+        x = st.force(args[0])
+        if isinstance(x, ModelObj) and getattr(x, "py_class", None) is dict:
+            return x.py_call(ip, st, "copy", [], {})
+        if isinstance(x, DRef):
+            return DRef(x.d)
+    if _all_conc(args) and _all_conc(list(kwargs.values())):
+        try:
+            return dict(*args, **kwargs)
+        except Exception as ex:  # noqa: BLE001
+            _raise(type(ex), str(ex))
+    raise Unsupported("call of 'dict' with symbolic arguments")
 
 
 def b_slice(ip, st, *args):
@@ -1185,6 +1208,7 @@ TABLE = {
     list: b_list,
     tuple: b_tuple,
     isinstance: b_isinstance,
+    dict: b_dict,
     slice: b_slice,
     enumerate: b_enumerate,
     zip: b_zip,
